@@ -260,6 +260,26 @@ Theorem C20_route_404_exact : forall O d ml url,
 Proof. exact route_404_exact. Qed.
 Print Assumptions C20_route_404_exact.
 
+(* whatever is served is served under the ESCAPED NAME of what is stored: the URL is the list URL
+   of the escaped module path, or the file URL of the escaped path, the escaped requested version
+   and one of info/mod/zip (the basis of the runner's servable-set oracle) *)
+Theorem C20_served_url_canonical : forall O d ml url,
+  respond O d ml url <> NotFound ->
+  (exists p ep, escape_string p = Some ep /\ url = list_url ep /\ check_path O p = true /\
+                listed O ml p <> []) \/
+  (exists p v ep ev e a, escape_string p = Some ep /\ escape_string v = Some ev /\
+      url = file_url ep ev e /\ check_path O p = true /\ check_elem O v = true /\
+      (e = ext_info \/ e = ext_mod \/ e = ext_zip) /\
+      stored O d p (target_version O d ml p v) = Some a).
+Proof. exact served_url_canonical. Qed.
+Print Assumptions C20_served_url_canonical.
+
+(* a requested version that is not all lower-case hex is looked up literally *)
+Theorem C20_target_version_literal : forall O d ml p v,
+  allhex v = false -> target_version O d ml p v = v.
+Proof. exact target_version_literal. Qed.
+Print Assumptions C20_target_version_literal.
+
 (* the same, executable (extracted and compared with the status of every HTTP response): served_b
    decides it from the store without running a handler *)
 Theorem C20_served_b_exact : forall O d ml url,
